@@ -372,6 +372,8 @@ def judge_mqtt(ctx, name: str, led: Ledger, pubs: list[tuple[float, str, str]]) 
         elif state[1] == "ok":
             dropped += 1
             recent = sum(1 for x in t if tr - 60.0 < x <= tr + TOL)
+            # a request its caller withdrew while it waited for its token has spent that token all the same
+            recent += sum(1 for t2, seq2, _ in led.req if seq2 in led.given_up and tr - 61.0 < t2 <= tr + TOL)
             if recent < TOKENS - 2:
                 ctx.violate("C11|mqtt|in-budget-write-dropped", "an MQTT write was dropped although the last minute saw fewer publishes than the token budget", {**meta, "offered_at": round(tr, 3), "publishes_in_last_60s": recent})
     ctx.count("mqtt.drops", dropped)
